@@ -55,6 +55,9 @@ func (r *poolRun) run() {
 	for _, cn := range r.spec.Chains {
 		r.batchTimeout[cn] = map[uint64]uint64{}
 	}
+	if r.spec.Flood {
+		r.opFlood(r.spec.Chains[0])
+	}
 	for step := 0; step < r.spec.Steps && r.c.BlockErr == nil && r.res.Inconclusive == ""; step++ {
 		cn := r.spec.Chains[r.rng.IntN(len(r.spec.Chains))]
 		if r.stuck[cn] {
@@ -999,4 +1002,50 @@ func sortedChains(m map[string]string) []string {
 	}
 	sort.Strings(out)
 	return out
+}
+
+// opFlood: more transfers of one token wait in the pool than one batch can take; then a batch is requested.
+func (r *poolRun) opFlood(cn string) {
+	b := r.bridge(cn)
+	var t *fix.WToken
+	for _, x := range r.tokensOn(cn) {
+		if x.Kind == fix.KindModule {
+			t = x
+		}
+	}
+	if t == nil {
+		return
+	}
+	u := r.users[0]
+	n, h := b.NextEvent()
+	if !r.quorum(cn, b.SendToFxClaim(n, h, t.Ext[cn], sdkmath.NewInt(1_000_000), u.Hex(), u.Acc(), ""), "flood deposit") {
+		return
+	}
+	before := r.snapshot()
+	if er := b.ExecuteClaim(r.c.Users[3], n); er.Failed() {
+		return
+	}
+	r.deposited[t.Base] = r.deposited[t.Base].Add(sdkmath.NewInt(1_000_000))
+	r.liq(cn, t.Base, sdkmath.NewInt(1_000_000))
+	r.expectDeltas("deposit-execute flood", before, []delta{{t.Base, u.Label, sdkmath.NewInt(1_000_000)}})
+	r.sync(cn, "deposit-execute flood")
+	k := 101 + r.rng.IntN(8)
+	for i := 0; i < k; i++ {
+		before = r.snapshot()
+		amt, fee := sdkmath.NewInt(int64(10+i)), sdkmath.NewInt(int64(1+i%3))
+		_, res := b.SendToExternal(u, r.c.Users[3].Hex(), sdk.NewCoin(t.Base, amt), sdk.NewCoin(t.Base, fee))
+		op := fmt.Sprintf("send %s %s %s+%s by %s (flood %d/%d) -> %s", cn, t.Symbol, amt, fee, u.Label, i+1, k, short(res.ErrString()))
+		if !res.OK() {
+			r.expectDeltas(op, before, nil)
+			r.sync(cn, op)
+			continue
+		}
+		r.liq(cn, t.Base, amt.Add(fee).Neg())
+		r.expectDeltas(op, before, []delta{{t.Base, u.Label, amt.Add(fee).Neg()}})
+		r.sync(cn, op, "new")
+	}
+	r.res.Count("pool_floods", 1)
+	r.forceToken = t
+	r.opRequestBatch(cn)
+	r.forceToken = nil
 }
